@@ -1,4 +1,5 @@
 import Proofs.Lemmas.Template
+import Proofs.Lemmas.TemplateEnd
 import Proofs.Audit
 
 /-!
@@ -266,92 +267,32 @@ theorem C02_end_full (path : List Tok) (P Q : TField → Bool) (s e : DateTime)
   simp only [stdOf_nonEmpty P s hdP, mkDate_stdOf P s hvs hdP, stdOf_nonEmpty Q e hdQ, hmerge,
     mkDate_stdOf Q e hve hdQ, hle, ↓reduceIte, Bool.false_eq_true]
 
-/-- the end fields are sub-day fields including the hour -/
-def SubDay (Q : TField → Bool) : Prop :=
-  Q .year = false ∧ Q .year2 = false ∧ Q .month = false ∧ Q .day = false ∧ Q .doy = false ∧
-    Q .hour = true ∧ NoSub Q
-
-/-- date and missing fields from the start, the named sub-day fields from `e` -/
-def combine (P Q : TField → Bool) (s e : DateTime) : DateTime :=
-  { y := s.y, mo := s.mo, d := s.d, h := e.h
-    mi := if Q .minute then e.mi else if P .minute then s.mi else 0
-    s := if Q .second then e.s else if P .second then s.s else 0
-    us := if Q .millisecond then 1000 * (e.us / 1000)
-          else if P .millisecond then 1000 * (s.us / 1000) else 0 }
-
-theorem superior_subday (path : List Tok) (Q : TField → Bool)
-    (hQ : ∀ f, path.contains (.ph (.time true f)) = Q f) (h : SubDay Q) :
-    superior path = some (resolution 2) := by
-  obtain ⟨h1, h2, h3, h4, h5, h6, h7, h8, h9⟩ := h
-  unfold superior endRanks allFields
-  simp only [List.filterMap_cons, List.filterMap_nil, hQ, h1, h2, h3, h4, h5, h6, h7, h8, h9,
-    TField.rank, Bool.false_eq_true, ↓reduceIte]
-  cases Q .minute <;> cases Q .second <;> cases Q .millisecond <;> rfl
-
-theorem mkDate_merge_subday (P Q : TField → Bool) (s e : DateTime) (hvs : Valid s) (hve : Valid e)
-    (hdP : HasDate P) (hq : SubDay Q) :
-    mkDate ((stdOf P s).merge (stdOf Q e)) = .ok (combine P Q s e) := by
-  obtain ⟨q1, q2, q3, q4, q5, q6, _⟩ := hq
-  have hvalid : valid (combine P Q s e) = true := by
-    have hs := (valid_iff s).1 hvs
-    have he := (valid_iff e).1 hve
-    have : Valid (combine P Q s e) := by
-      rw [valid_iff]
-      unfold combine
-      obtain ⟨a1, a2, a3, a4, a5⟩ := hs
-      obtain ⟨b1, b2, b3, b4, b5⟩ := he
-      refine ⟨a1, b2, ?_, ?_, ?_⟩
-      · simp only; split_ifs <;> omega
-      · simp only; split_ifs <;> omega
-      · simp only; split_ifs <;> omega
-    exact this
-  obtain ⟨hy, hmd⟩ := hdP
-  have e1 : (P .year2 || P .year) = true := by rcases hy with h | h <;> simp [h]
-  have e2 : (P .doy || P .month) = true := by rcases hmd with ⟨h, _⟩ | h <;> simp [h]
-  have e3 : (P .doy || P .day) = true := by rcases hmd with ⟨_, h⟩ | h <;> simp [h]
-  have hm : (stdOf P s).merge (stdOf Q e) =
-      { year := some s.y, month := some s.mo, day := some s.d, hour := some (combine P Q s e).h,
-        minute := if Q .minute || P .minute then some (combine P Q s e).mi else none,
-        second := if Q .second || P .second then some (combine P Q s e).s else none,
-        micro := if Q .millisecond || P .millisecond then some (combine P Q s e).us else none } := by
-    simp only [Std.merge, stdOf, combine, e1, e2, e3, q1, q2, q3, q4, q5, q6, ↓reduceIte,
-      Bool.or_self, Bool.false_eq_true]
-    cases Q .minute <;> cases Q .second <;> cases Q .millisecond <;> cases P .hour <;>
-      cases P .minute <;> cases P .second <;> cases P .millisecond <;> rfl
-  rw [hm]
-  unfold mkDate
-  simp only
-  have : ({ y := s.y, mo := s.mo, d := s.d, h := (some (combine P Q s e).h).getD 0,
-            mi := (if (Q .minute || P .minute) = true then some (combine P Q s e).mi else none).getD 0,
-            s := (if (Q .second || P .second) = true then some (combine P Q s e).s else none).getD 0,
-            us := (if (Q .millisecond || P .millisecond) = true then some (combine P Q s e).us else none).getD 0 } : DateTime)
-      = combine P Q s e := by
-    unfold combine
-    cases Q .minute <;> cases Q .second <;> cases Q .millisecond <;>
-      cases P .minute <;> cases P .second <;> cases P .millisecond <;> rfl
-  simp only [this, hvalid, ↓reduceIte]
-
-/-- **end written with fewer fields** (hour, possibly minute / second / millisecond) — PARTIAL.
-
-Full statement (NOT PROVED (partial): the last assembly step makes the kernel run out of
-recursion depth on the unfolded `coverageOf`; it is validated by the correspondence run and the
-exhaustive midnight sweep of the thorough tier):
-
-    coverageOf path (stdOf P s) (stdOf Q e) =
-      if lt (combine P Q s e) (truncTo P s) then
-        match addDelta (combine P Q s e) (resolution 2) with     -- + 1 day on toMicros
-        | .ok c' => .ok (some (truncTo P s), some c') | .error err => .error err
-      else .ok (some (truncTo P s), some (combine P Q s e))
-
-Proved here: the two facts it is assembled from — the end datetime built from the merged
-arguments is `combine` (date and missing fields from the start, named fields from `e`), and the
-roll-over applied when it precedes the start is exactly one day (`resolution 2`). -/
-theorem C02_end_partial_partial (path : List Tok) (P Q : TField → Bool) (s e : DateTime)
+/-- **end written with fewer fields** (hour, and possibly minute / second / millisecond;
+`SubDay`): the date and the missing fields come from the start (`combine`); when the result
+would precede the start it is moved to the next day — `shiftEnd … (resolution 2)` is
+`ofMicros (toMicros c + 86400000000)`, i.e. `+ 1 day` on the time line, so midnight, month end,
+year end and leap days are handled by the calendar (OverflowError beyond 9999-12-31). -/
+theorem C02_end_partial (path : List Tok) (P Q : TField → Bool) (s e : DateTime)
     (hvs : Valid s) (hve : Valid e) (hdP : HasDate P)
     (hQ : ∀ f, path.contains (.ph (.time true f)) = Q f) (hq : SubDay Q) :
-    mkDate ((stdOf P s).merge (stdOf Q e)) = .ok (combine P Q s e) ∧
-      superior path = some (resolution 2) ∧ resolution 2 = 86400000000 :=
-  ⟨mkDate_merge_subday P Q s e hvs hve hdP hq, superior_subday path Q hQ hq, rfl⟩
+    coverageOf path (stdOf P s) (stdOf Q e) =
+      (if lt (combine P Q s e) (truncTo P s) then
+        shiftEnd (truncTo P s) (combine P Q s e) (resolution 2)
+      else .ok (some (truncTo P s), some (combine P Q s e))) ∧
+    resolution 2 = 86400000000 :=
+  ⟨coverageOf_subday path P Q s e hvs hve hdP hQ hq, rfl⟩
+
+/-- corollary: a start given at the template's resolution, an end whose written sub-day fields
+determine its time of day, and `s ≤ e < s + 1 day` ⇒ the parsed coverage is exactly `(s, e)`,
+also across midnight / month end / year end -/
+theorem C02_end_partial_recovered (path : List Tok) (P Q : TField → Bool) (s e : DateTime)
+    (hvs : Valid s) (hve : Valid e) (hdP : HasDate P)
+    (hQ : ∀ f, path.contains (.ph (.time true f)) = Q f) (hq : SubDay Q)
+    (hs : truncTo P s = s)
+    (hte : (combine P Q s e).mi = e.mi ∧ (combine P Q s e).s = e.s ∧ (combine P Q s e).us = e.us)
+    (hle : toMicros s ≤ toMicros e) (hlt : toMicros e < toMicros s + 86400000000) :
+    coverageOf path (stdOf P s) (stdOf Q e) = .ok (some s, some e) :=
+  coverageOf_subday_within_day path P Q s e hvs hve hdP hQ hq hs hte hle hlt
 
 /-! ### get_info -/
 
@@ -432,4 +373,4 @@ assert_axioms C02_parse_pad C02_ofYearDoy_doyOf C02_toMicros_strictMono C02_lt_i
   C02_ofMicros_toMicros C02_expandYear2_roundtrip C02_fields_recovered C02_no_misparse
   C02_rejected C02_unknown_placeholder C02_unfilled_placeholder C02_args_recovered
   C02_start_roundtrip C02_truncTo_id C02_end_default C02_end_full C02_getInfo_filename
-  C02_handler_overrides C02_handler_silent C02_end_partial_partial
+  C02_handler_overrides C02_handler_silent C02_end_partial C02_end_partial_recovered
